@@ -8,5 +8,5 @@ cp -r /repo/cxxheaderparser "$d/"
 ( cd "$d" && patch -p1 -s --no-backup-if-mismatch < "$p" ) || { echo "PATCH-FAILED $p"; exit 3; }
 rc=0
 for prop in "$@"; do
-  VERIF_EVIDENCE_DIR="$d/ev" /verif/vcheck "$prop" --repo "$d" | grep -E "VIOLATION|finding:|ANALYSIS-ERROR|^           |new violation" || true
+  VERIF_EVIDENCE_DIR="$d/ev" ${VROOT:-/verif}/vcheck "$prop" --repo "$d" | grep -E "VIOLATION|finding:|ANALYSIS-ERROR|^           |new violation" || true
 done
